@@ -1,0 +1,50 @@
+//go:build verif
+
+package s3db
+
+import (
+	"context"
+	"time"
+
+	"github.com/jrhy/mast"
+	"github.com/jrhy/s3db/kv"
+	"github.com/jrhy/s3db/kv/crdt"
+	v1proto "github.com/jrhy/s3db/proto/v1"
+)
+
+// VerifWrapS3, when set, replaces or wraps the object-store client of every
+// table opened by this process (verification harness only).
+var VerifWrapS3 func(kv.S3Interface, S3Options) kv.S3Interface
+
+func verifWrapS3(c kv.S3Interface, o S3Options) kv.S3Interface {
+	if VerifWrapS3 != nil {
+		return VerifWrapS3(c, o)
+	}
+	return c
+}
+
+// Export shims for the verification harness.
+
+func VerifMergeValues(i1, i2 crdt.Value) crdt.Value { return mergeValues(nil, i1, i2) }
+
+func VerifMarshalNode(n mast.Node) ([]byte, error) { return marshalProto(n) }
+
+func VerifUnmarshalNode(b []byte, n *mast.Node) error { return unmarshalProto(b, n) }
+
+func VerifToSQLiteValue(i interface{}) *v1proto.SQLiteValue { return toSQLiteValue(i) }
+
+func VerifUpdateTime(ctx context.Context) time.Time { return updateTime(ctx) }
+
+func VerifParseSchema(s string) (cols []string, notNull []bool, pk []string, err error) {
+	sch, err := parseSchema(s)
+	if err != nil {
+		return nil, nil, nil, err
+	}
+	for _, c := range sch.Columns {
+		cols = append(cols, c.Name)
+		notNull = append(notNull, c.NotNull)
+	}
+	return cols, notNull, sch.PrimaryKey, nil
+}
+
+func (c *VirtualTable) VerifKeyColName() string { return c.ColumnNameByIndex[c.KeyCol] }
